@@ -332,7 +332,10 @@ func (p *parserDoer) onEntries(labels [][]string, timestampsNS []int64,
 	}
 
 	for i, tsns := range timestampsNS {
-		dates[time.Unix(tsns/1000000000, 0).Truncate(time.Hour*24)] = true
+		// The day is the UTC day (Truncate works on absolute time). The value must also be
+		// in the UTC location: the Date column encoder adds the zone offset of the time it
+		// is given, which moved the series row to the previous day west of UTC.
+		dates[time.Unix(tsns/1000000000, 0).UTC().Truncate(time.Hour*24)] = true
 		p.tsSpl.spl.Size += len(message[i]) + 26
 	}
 
